@@ -1,23 +1,34 @@
 #!/venv/bin/python
-"""Confirm sub-agent refactorings: patch applies in a scratch worktree and the 400 baseline tests still pass."""
-import json, os, subprocess, sys, glob, xml.etree.ElementTree as ET
+"""Confirm sub-agent refactorings in scratch worktrees (never /repo): the patch applies, the 400 baseline
+tests still pass, and the agent's differential script prints the same digest on the clean tree and with
+the patch (behaviour unchanged on its inputs).  env REF_BASE (default /tmp/ref2), REF_WT (default /tmp/wtr)."""
+import json, os, subprocess, sys, glob, hashlib, xml.etree.ElementTree as ET
 from concurrent.futures import ThreadPoolExecutor
 STABLE = json.load(open('/root/.vp/BASELINE.json'))['stable_pass']
+BASE = os.environ.get('REF_BASE', '/tmp/ref2')
+WT = os.environ.get('REF_WT', '/tmp/wtr')
 
-def sh(cmd, cwd):
-    p = subprocess.run(cmd, shell=True, cwd=cwd, stdout=subprocess.PIPE, stderr=subprocess.STDOUT)
-    return p.returncode, p.stdout.decode(errors='replace')
+
+def sh(cmd, cwd, env=None, timeout=3600):
+    e = dict(os.environ); e.update(env or {})
+    p = subprocess.run(cmd, shell=True, cwd=cwd, env=e, stdout=subprocess.PIPE, stderr=subprocess.DEVNULL, timeout=timeout)
+    return p.returncode, p.stdout
+
 
 def one(t):
-    wt = '/tmp/wt/' + t
+    wt = os.path.join(WT, t)
     out = []
     sh('git checkout -- . && git clean -fdq', wt)
-    for diff in sorted(glob.glob('/tmp/ref/%s/r*.diff' % t)):
-        k = os.path.basename(diff)[:-5]
+    env = {'PYTHONPATH': wt, 'FLOWCAL_ROOT': wt, 'MPLBACKEND': 'Agg', 'PYTHONHASHSEED': '0'}
+    for diff in sorted(glob.glob('%s/%s/r*.diff' % (BASE, t))):
+        k = os.path.basename(diff)[1:-5]
+        script = '%s/%s/diff%s.py' % (BASE, t, k)
+        res = {}
+        rc0, o0 = sh('/venv/bin/python %s' % script, wt, env) if os.path.exists(script) else (None, b'')
         rc, o = sh('git apply %s' % diff, wt)
-        res = {'applies': rc == 0}
+        res['applies'] = rc == 0
         if rc == 0:
-            junit = '/tmp/ref/%s/junit_%s.xml' % (t, k)
+            junit = '%s/%s/junit_r%s.xml' % (BASE, t, k)
             sh('/venv/bin/python -m pytest -q -p no:cacheprovider -n 4 --timeout=900 --junitxml=%s' % junit, wt)
             ok = set()
             for tc in ET.parse(junit).iter('testcase'):
@@ -25,12 +36,20 @@ def one(t):
                     ok.add(tc.get('classname') + '::' + tc.get('name'))
             res['baseline_failing'] = sorted(set(STABLE) - ok)
             os.remove(junit)
+            rc1, o1 = sh('/venv/bin/python %s' % script, wt, env) if os.path.exists(script) else (None, b'')
+            res['diff_script'] = {'clean_exit': rc0, 'patched_exit': rc1, 'same_output': o0 == o1, 'bytes': len(o0),
+                                  'sha1': hashlib.sha1(o0).hexdigest()[:12]}
         sh('git checkout -- . && git clean -fdq', wt)
-        res['confirmed'] = bool(res['applies'] and not res.get('baseline_failing'))
-        json.dump(res, open('/tmp/ref/%s/confirm_%s.json' % (t, k), 'w'))
-        out.append((t, k, res['confirmed']))
+        res['confirmed'] = bool(res['applies'] and not res.get('baseline_failing') and res.get('diff_script', {}).get('same_output')
+                                and res['diff_script']['bytes'] > 0 and res['diff_script']['clean_exit'] == res['diff_script']['patched_exit'])
+        json.dump(res, open('%s/%s/confirm_r%s.json' % (BASE, t, k), 'w'))
+        out.append((t, 'r' + k, res['confirmed'], res.get('diff_script')))
     return out
 
-with ThreadPoolExecutor(4) as ex:
-    for r in ex.map(one, ['T%02d' % i for i in range(1, 11)]):
-        for x in r: print(*x)
+
+if __name__ == '__main__':
+    ids = sys.argv[1:] or sorted(os.path.basename(d) for d in glob.glob(BASE + '/*') if os.path.isdir(d))
+    with ThreadPoolExecutor(5) as ex:
+        for r in ex.map(one, ids):
+            for x in r:
+                print(*x)
